@@ -3,6 +3,7 @@ package main
 import (
 	"encoding/binary"
 	"fmt"
+	"io"
 	"os"
 )
 
@@ -60,6 +61,31 @@ func init() {
 	Exec["pbcmpl.Marshal/faulty"] = func(a []V) string {
 		return c06RunMarshal(a[0].Int(), a[1], a[2].L)
 	}
+	// widening: [kind, [chunk...], terminal kind, with last]: explicit chunks, empty ones included
+	Exec["pbcmpl.Unmarshal/chunks"] = func(a []V) string {
+		var chunks [][]byte
+		total := 0
+		var all []byte
+		for _, c := range a[1].L {
+			b := append([]byte{}, c.Bytes()...)
+			chunks = append(chunks, b)
+			total += len(b)
+			all = append(all, b...)
+		}
+		c07About("pbcmpl.Unmarshal/chunks", all, func() string { return c07ArgsText(a) })
+		r := &c06Reader{chunks: chunks, terr: io.EOF, withLast: a[3].Bool()}
+		if a[2].Int() != 0 {
+			r.terr = c06Injected
+		}
+		steps, left := c06RunStream(a[0].Int(), r, total)
+		return L(steps, left)
+	}
+	// widening: [stream bytes, chunk pattern, terminal kind, with last]
+	Exec["pbcmpl.Walk/bytes"] = func(a []V) string {
+		s := a[0].Bytes()
+		steps, left := c06Walk(c06NewReader(s, a[1].I64s(), a[2].Int(), a[3].Bool()), len(s))
+		return L(steps, left)
+	}
 	Register("C07", genC07)
 }
 
@@ -100,9 +126,16 @@ func c07Script(resp ...[2]int64) string {
 }
 
 func genC07(g *Gen) {
+	nstream := 0
 	stream := func(kind int, s []byte, pat []int64, tk int, wl bool, key, bucket string) {
 		g.Stat(bucket)
 		g.Do("pbcmpl.Unmarshal/stream", L(Int(kind), Bytes(s), I64s(pat), Int(tk), B(wl)), key)
+		// widening: the same bytes walked with ReadHeader + io.ReadFull (every 3rd stream; every one when thorough)
+		nstream++
+		if g.Thorough || nstream%3 == 0 {
+			g.Stat("walk:" + bucket)
+			g.Do("pbcmpl.Walk/bytes", L(Bytes(s), I64s(pat), Int(tk), B(wl)), "walk/"+key)
+		}
 	}
 	readHeader := func(s []byte, pat []int64, tk int, wl bool, key string) {
 		g.Stat("readheader")
@@ -190,6 +223,18 @@ func genC07(g *Gen) {
 			}
 		}
 	}
+	// widening: a message whose own Marshal fails: (0, that error), nothing written, whatever the writer
+	// would have done and whatever the version (even one longer than 16 bytes: newHeader is never reached)
+	for _, vl := range []int{-1, 0, 5, 16, 17, 40} {
+		for _, sc := range []string{c07Script(), c07Script([2]int64{0, 1}), c07Script([2]int64{10, 1}), c07Script([2]int64{32, 0}, [2]int64{1, 1})} {
+			ver := ""
+			if vl > 0 {
+				ver = string(g.R.Bytes(vl, []byte("ab.1")))
+			}
+			g.Stat("marshal-encode-error")
+			g.Do("pbcmpl.Marshal/encerr", L(c06MsgText(vl >= 0, ver, c06Payloadgen(g.R, g.R.Range(0, 40))), sc), fmt.Sprintf("encerr/v%d/s%d", vl, len(sc)))
+		}
+	}
 	// a version longer than 16 bytes panics by design
 	for _, vl := range []int{17, 18, 40} {
 		g.Do("pbcmpl.Marshal/faulty", L("0", c06MsgText(true, string(g.R.Bytes(vl, []byte("ab"))), []byte("x")), c07Script()), fmt.Sprintf("wf/longver%d", vl))
@@ -263,6 +308,71 @@ func genC07(g *Gen) {
 		stream(g.R.Pick(0, 2), s, pat, tk, wl, key, "arbitrary-bytes")
 		if i%4 == 0 {
 			readHeader(s, pat, tk, wl, "rh/"+key)
+		}
+	}
+
+	// (6) widening: readers that return (0, nil): explicit chunk lists with empty chunks sprinkled in
+	// (never as the last chunk), over valid frames, cut frames, corrupt headers and arbitrary bytes
+	chunked := func(kind int, s []byte, tk int, wl bool, class string) {
+		cs := c06Chunks(c06Pattern(g.R), append([]byte{}, s...))
+		ne := g.R.Range(1, 4)
+		for e := 0; e < ne && len(cs) > 0; e++ {
+			at := g.R.Intn(len(cs)) // before chunk `at`, so never last
+			cs = append(cs[:at], append([][]byte{{}}, cs[at:]...)...)
+			if g.R.Intn(3) == 0 { // a run of empties
+				cs = append(cs[:at], append([][]byte{{}}, cs[at:]...)...)
+			}
+		}
+		xs := make([]string, len(cs))
+		for i, c := range cs {
+			xs[i] = Bytes(c)
+		}
+		g.Stat("empty-chunks:" + class)
+		g.Do("pbcmpl.Unmarshal/chunks", L(Int(kind), L(xs...), Int(tk), B(wl)), fmt.Sprintf("chk/k%d/%s/t%d/wl%s/n%d", kind, class, tk, B(wl), len(cs)))
+	}
+	n = g.N(500, 12000)
+	for i := 0; i < n; i++ {
+		kind := g.R.Intn(3)
+		var s []byte
+		nf := g.R.Range(1, 3)
+		for f := 0; f < nf; f++ {
+			bl := g.R.Pick(0, 1, 31, 32, 33, g.R.Range(0, 80), g.R.Range(500, 600))
+			s = append(s, c07Frame(kind, c06Ver(g.R, g.R.Range(0, 16), g.R.Intn(3)), c06Payloadgen(g.R, bl))...)
+		}
+		class := "frames"
+		switch g.R.Intn(5) {
+		case 0: // cut
+			s = s[:g.R.Intn(len(s))]
+			class = "cut"
+		case 1: // corrupt a header field of the first frame (raw kinds only: BytesValue bodies are fed as valid encodings only)
+			if kind == 1 {
+				break
+			}
+			binary.LittleEndian.PutUint64(s[16+8*g.R.Intn(2):], c07U64(g.R))
+			class = "corrupt"
+		case 2:
+			if kind == 1 {
+				break
+			}
+			s = g.R.Bytes(g.R.Range(1, 100), alphabets[g.R.Intn(len(alphabets))])
+			class = "arbitrary"
+		}
+		chunked(kind, s, g.R.Intn(2), g.R.Bool(), class)
+	}
+	// the frame boundary cases with an empty chunk exactly at the boundary
+	for kind := 0; kind <= 1; kind++ {
+		f := c07Frame(kind, "1.2.3", []byte("abc"))
+		for _, at := range []int{0, 1, 31, 32, 33, len(f) - 1} {
+			for tk := 0; tk <= 1; tk++ {
+				for wl := 0; wl <= 1; wl++ {
+					xs := []string{Bytes(f[:at]), Bytes(nil), Bytes(nil), Bytes(f[at:])}
+					if at == 0 {
+						xs = xs[1:]
+					}
+					g.Stat("empty-chunks:boundary")
+					g.Do("pbcmpl.Unmarshal/chunks", L(Int(kind), L(xs...), Int(tk), B(wl == 1)), fmt.Sprintf("chk/k%d/boundary%d/t%d/wl%d", kind, at, tk, wl))
+				}
+			}
 		}
 	}
 
